@@ -129,6 +129,25 @@ func (s *syncSource) RequestBlock(ctx context.Context, hash bitcoin.Hash32, hand
 		feed(b)
 	case "silent":
 		// the node accepts the request and never answers
+	case "stall":
+		// the one asynchronous source: the download starts (handler running) but the transaction only
+		// arrives 12 virtual seconds later - time for the manager to ask a second source, which
+		// finishes first. If the request is cancelled meanwhile the stream just ends.
+		node.mu.Lock()
+		node.registered = true
+		node.mu.Unlock()
+		vsched.GoNamed("stalling-node-"+label, func() {
+			ch := make(chan *wire.MsgTx, 2)
+			vsched.GoNamed("stalled-handler-"+label, func() { handler(bg, b.header, 1, ch) })
+			vsched.Sleep(12 * time.Second)
+			node.mu.Lock()
+			closed := node.closed
+			node.mu.Unlock()
+			if !closed {
+				vsched.Send(ch, b.tx)
+			}
+			vsched.Close(ch)
+		})
 	case "drop":
 		onStop(bg)
 	case "wrong":
@@ -248,6 +267,14 @@ func syncScenario(c syncConfig) func() func() []string {
 		vsched.GoNamed("finisher", func() {
 			events.Wait()
 			nm.Wait(bg) // all synchronisation rounds are over
+			for _, list := range c.script {
+				for _, b := range list {
+					if b == "stall" {
+						// the block manager keeps running after a round: let a stalled download play out
+						vsched.Sleep(20 * time.Second)
+					}
+				}
+			}
 			vsched.Close(bmInterrupt)
 			finished = true
 		})
@@ -392,6 +419,9 @@ func c05Scenarios(thorough bool) []*scenario {
 	// the 10 s orphan check must abandon it, and a later round continues on the new best chain
 	add(syncConfig{length: 3, start: 1, script: map[string][]string{"a2": {"silent", "silent"}}, events: []string{"reorg"}, forkAt: 1, forkLen: 3}, 0)
 	add(syncConfig{length: 4, start: 1, processed: []int{1}, script: map[string][]string{"a3": {"silent", "silent"}}, events: []string{"reorg"}, forkAt: 2, forkLen: 3}, 0)
+	// two sources for one block: the first stalls mid-download, the second (asked after the block
+	// request delay) finishes first; the stalled one must not get the block processed a second time
+	add(syncConfig{length: 2, start: 1, concurrent: 2, script: map[string][]string{"a1": {"stall"}}}, 0)
 	if thorough {
 		add(syncConfig{length: 2, start: 1, concurrent: 2, script: map[string][]string{"a1": {"drop"}}}, 0, 1)
 		add(syncConfig{length: 3, start: 2, events: []string{"trigger", "extend"}}, 0, 1)
